@@ -46,7 +46,10 @@ def gen_case(r, max_ticks=40, mfs=MFS_QUICK, max_n=4):
                 k = r.randrange(n)
                 t["alive"] += [[] for _ in range(k + 1 - len(t["alive"]))]
                 t["alive"][k] = t["alive"][k] + evs
-    return dict(n=n, mf=mf, p0=r.choice([1, 100, 100, 1000, r.randint(1, 2000)]), ticks=ticks)
+    c = dict(n=n, mf=mf, p0=r.choice([1, 100, 100, 1000, r.randint(1, 2000)]), ticks=ticks)
+    if r.random() < .35:
+        c["slow"] = r.choice([2, 2, 3])     # workers that need an unbounded join() to exit after terminate()
+    return c
 
 
 def has_mid(c):
@@ -322,6 +325,10 @@ def nontrivial(c, o):
 def count_case(rep, c, o):
     rep.count("workers:%d" % c["n"])
     rep.count("max_fails:%d" % c["mf"])
+    if c.get("slow"):
+        rep.count("with_slow_exit_workers")
+    for pid_, code in o.get("exitcodes", []):
+        rep.count("exit_status:%s" % code)
     rep.count("ticks:%s" % ("1-5" if len(c["ticks"]) <= 5 else "6-15" if len(c["ticks"]) <= 15 else "16+"))
     rep.count("outcome:" + "-".join(map(str, o["result"][:2] if o["result"][0] == "exit" else o["result"][:1])))
     if has_mid(c):
@@ -426,7 +433,7 @@ def replay(ctx, pid, path):
     rec = json.load(open(path))
     c = rec.get("case", rec)
     o = C.run_driver(ctx, "pm_driver", [c], nproc=1)[0]
-    print("case:", json.dumps({k: c[k] for k in ("n", "mf", "p0", "ticks")}))
+    print("case:", json.dumps({k: c[k] for k in ("n", "mf", "p0", "slow", "ticks") if k in c}))
     if "_crash" in o:
         print("driver crashed:", o["_crash"])
         return 1
